@@ -18,7 +18,8 @@ import itertools
 from collections import deque
 from fractions import Fraction
 
-from ..astq import strip, strip_casts, norm, calls, src
+from ..astq import strip, strip_casts, norm, calls, src, call_object, call_args
+from ..cfg import CFG
 from ..facts import AnalysisBroken, walk
 from ..microai.interp import Interp, Obj, Vec, Box, enumerate_paths, AssertFail, Thrown, Unsupported
 from ..microai.poly import Poly, to_poly
@@ -502,9 +503,103 @@ def rule_inside_strict(chk, prog):
     (r.bad if bad else r.ok)("Avoid::Node::isInsideShape", fn.where(), bad or "%d paths" % n_rows)
 
 
+def rule_segment_list(chk, prog):
+    """SegmentListWrapper::insert: the list of visibility lines of one sweep loses neither extent nor vertices when lines are merged."""
+    from ..microai.interp import Interp, Obj, Vec, SetVal, Oracle, Unsupported, AssertFail, default_obj
+    from fractions import Fraction
+    r = chk.rule("SEGMENT-LIST-MERGE", "SegmentListWrapper::insert interpreted on lists of collinear and parallel lines (new line disjoint, overlapping "
+                 "one line, nested, BRIDGING two or three disjoint lines, equal to an existing one): afterwards the union of the extents on the "
+                 "new line's coordinate is the union of the old extents and the new one, merged into one line wherever they touch; every "
+                 "vertex of every merged line and of the new line is on the surviving line; lines at other coordinates are untouched; the "
+                 "returned pointer is the line that now contains the inserted one", floor=6)
+    fn = prog.fn("Avoid::SegmentListWrapper::insert")
+
+    def seg(b, f, pos, names):
+        vs = SetVal()
+        for n in names:
+            vs.items.add(n)
+        return default_obj(prog, "Avoid::LineSegment", {"begin": Fraction(b), "finish": Fraction(f), "pos": Fraction(pos), "shapeSide": False,
+                                                         "vertInfs": vs, "breakPoints": SetVal()})
+    scenes = {
+        "disjoint from all": ([(0, 4, 10, [1]), (6, 9, 10, [2])], (12, 15, 10, [3])),
+        "overlaps one line": ([(0, 4, 10, [1]), (6, 9, 10, [2])], (3, 5, 10, [3])),
+        "nested in one line": ([(0, 9, 10, [1, 2])], (3, 5, 10, [3])),
+        "bridges two disjoint lines": ([(0, 4, 10, [1]), (6, 9, 10, [2]), (0, 9, 20, [7])], (4, 6, 10, [3])),
+        "bridges three disjoint lines": ([(0, 2, 10, [1]), (4, 5, 10, [2]), (7, 9, 10, [4]), (20, 30, 10, [5])], (2, 7, 10, [3])),
+        "equal to an existing line": ([(0, 4, 10, [1]), (6, 9, 10, [2])], (6, 9, 10, [3])),
+        "same extent, other coordinate": ([(0, 4, 10, [1])], (0, 4, 11, [3])),
+    }
+    for name, (old, new_) in scenes.items():
+        w = default_obj(prog, "Avoid::SegmentListWrapper", {})
+        w.f["_list"] = Vec([seg(*o) for o in old], "Avoid::LineSegment")
+        it = Interp(prog, Oracle([]))
+        r.count()
+        try:
+            res = it.call(fn, w, None, None, arg_values=[seg(*new_)])
+        except Unsupported as e:
+            raise AnalysisBroken("SegmentListWrapper::insert outside the interpreter subset (%s): %s" % (name, e))
+        except AssertFail as e:
+            r.bad(name, fn.where(), "assertion fails: %s" % e)
+            continue
+        # reference: merge closed intervals per coordinate
+        allsegs = [tuple(o) for o in old] + [tuple(new_)]
+        want = {}
+        for pos in sorted({s_[2] for s_ in allsegs}):
+            ivs = sorted((s_[0], s_[1], set(s_[3])) for s_ in allsegs if s_[2] == pos)
+            if pos != new_[2]:
+                want[pos] = [(a, b, v) for a, b, v in ivs]          # other coordinates: untouched, not even merged among themselves
+                continue
+            # only lines that (transitively) touch the NEW line are merged with it
+            cur = [new_[0], new_[1], set(new_[3])]
+            rest = [list(x) for x in ivs if (x[0], x[1], x[2]) != (new_[0], new_[1], set(new_[3]))] if False else [list(x) for x in sorted((o[0], o[1], set(o[3])) for o in old if o[2] == pos)]
+            changed = True
+            while changed:
+                changed = False
+                for x in list(rest):
+                    if x[0] <= cur[1] and cur[0] <= x[1]:
+                        cur = [min(cur[0], x[0]), max(cur[1], x[1]), cur[2] | x[2]]
+                        rest.remove(x)
+                        changed = True
+            want[pos] = sorted([tuple(cur)] + [tuple(x) for x in rest], key=lambda t: (t[0], t[1]))
+        got = {}
+        for s_ in w.f["_list"].items:
+            got.setdefault(int(s_.f["pos"]), []).append((int(s_.f["begin"]), int(s_.f["finish"]), set(s_.f["vertInfs"].items)))
+        for k_ in got:
+            got[k_].sort(key=lambda t: (t[0], t[1]))
+        bad = None
+        if got != want:
+            bad = "lines afterwards %s, expected %s" % ({k_: [(a, b, sorted(v)) for a, b, v in v_] for k_, v_ in got.items()},
+                                                       {k_: [(a, b, sorted(v)) for a, b, v in v_] for k_, v_ in want.items()})
+        elif not isinstance(res, Obj) or not (res.f["begin"] <= new_[0] and res.f["finish"] >= new_[1] and res.f["pos"] == new_[2]):
+            bad = "the returned line does not contain the inserted one"
+        (r.bad if bad else r.ok)(name, fn.where(), bad or "")
+
+
+def rule_cost_targets(chk, prog):
+    r = chk.rule("COST-TARGETS-COMPLETE", "AStarPathPrivate::determineEndPointLocation records EVERY candidate arrival point it is given: on every "
+                 "path to its exit the point, its directions and its displacement are appended to m_cost_targets / _directions / "
+                 "_displacements (kept in lock-step) -- the heuristic is the minimum over the recorded candidates, so a candidate that is "
+                 "dropped makes it over-estimate for routes arriving from that side (inadmissible: A* returns a costlier route)", floor=3)
+    fn = prog.fn("Avoid::AStarPathPrivate::determineEndPointLocation")
+    g = CFG(fn)
+    for vec in ("m_cost_targets", "m_cost_targets_directions", "m_cost_targets_displacements"):
+        pb = [c for c in calls(fn) if str(c.get("cname", "")).endswith("::push_back") and norm(call_object(c)) == vec]
+        r.count()
+        if len(pb) != 1:
+            r.bad(vec, fn.where(), "expected exactly one append to %s, found %d" % (vec, len(pb)))
+            continue
+        w = g.exit_reachable_avoiding([pb[0]["id"]])
+        if w is not None:
+            r.bad(vec, fn.loc(pb[0]), "the function can return without recording the candidate (%s)" % g.describe(w))
+        else:
+            r.ok(vec, fn.loc(pb[0]))
+
+
 def run(chk):
     prog = chk.load()
     from .c04 import rule_astar
+    chk.guard(rule_cost_targets, chk, prog)
+    chk.guard(rule_segment_list, chk, prog)
     chk.guard(rule_astar, chk, prog)
     chk.guard(rule_inside_strict, chk, prog)
     chk.guard(rule_bends, chk, prog)
